@@ -60,10 +60,12 @@ def same_value(v, w):
     return v == w
 
 
-def carries(v, w, precisions=()):
+def carries(v, w, precisions=(), anchors=()):
     """w carries the substituted data v at the substituted positions: scalars equal (floats
     within math.isclose, or equal after rounding to one of the declared precisions),
-    lists element-wise, dicts on every key given."""
+    lists element-wise, dicts on every key given.  anchors: float values already declared in
+    the schema - a declared value is kept by substitution, so v and w are then both within the
+    tolerance of that declared value (theories/Agree.v, fpin)."""
     kv, kw = _kind(v), _kind(w)
     if {kv, kw} <= {"bool", "int"}:
         return v == w
@@ -79,11 +81,20 @@ def carries(v, w, precisions=()):
                     return True
             except (OverflowError, ValueError):
                 pass
+        for e in anchors:
+            if math.isclose(v, e) and math.isclose(w, e):
+                return True
+            for p in precisions:
+                try:
+                    if round(v * 10 ** p) == round(e * 10 ** p) == round(w * 10 ** p):
+                        return True
+                except (OverflowError, ValueError):
+                    pass
         return False
     if kv == "list":
-        return len(v) == len(w) and all(carries(a, b, precisions) for a, b in zip(v, w))
+        return len(v) == len(w) and all(carries(a, b, precisions, anchors) for a, b in zip(v, w))
     if kv == "dict":
-        return all(k in w and carries(v[k], w[k], precisions) for k in v)
+        return all(k in w and carries(v[k], w[k], precisions, anchors) for k in v)
     return v == w
 
 
